@@ -519,6 +519,7 @@ void h_main_filter(void)
 }
 
 static bool opts_refused;
+static bool ref_conflict;   /* reference verdict of the option case being run */
 #ifdef OPTS_ONLY
 /* option-parsing query: signals.c is not linked; a fatal error ends the path at once */
 void setup_signals(void) {}
@@ -526,7 +527,6 @@ void cli(void) {}
 void sti(void) {}
 void halt(void) {}
 void xraise(int sig) { (void)sig; }
-static bool ref_conflict;   /* reference verdict of the case being run */
 void bailout(void) { opts_refused = true; WITNESS("options_refused"); PROP(ref_conflict, "options are refused only for the documented -c/-t conflict"); CUT(); }
 #endif
 
